@@ -453,6 +453,24 @@ def runITERW (args : List String) : String :=
     | _, _, _, _, _ => "bad-op"
   | _ => "bad-op"
 
+/-- `ITERS <len|none> <moves 0|1> <pos0> <script: v | _ (end) | P (pending), comma separated> <number of polls>` -/
+def runITERS (args : List String) : String :=
+  match args with
+  | [len, moves, pos0, script, n] =>
+    let len : Option (Option Nat) := if len = "none" then some none else len.toNat?.map some
+    let sc : Option (List (Option (Option Nat))) := if script = "-" then some [] else
+      (script.splitOn ",").mapM (fun x => if x = "P" then some none else if x = "_" then some (some none) else x.toNat?.map (fun v => some (some v)))
+    match len, pos0.toNat?, sc, n.toNat? with
+    | some len, some p, some sc, some n =>
+      let st : Position.St := { pos := p, len := len, finished := false, moves := moves = "1" }
+      " ".intercalate ((IterWrap.tracePolls sc st n).map (fun (a, s) =>
+        (match a with
+         | none => "pending"
+         | some (some v) => s!"some:{v}"
+         | some none => "none") ++ s!"@{s.pos}:{if s.finished then 1 else 0}"))
+    | _, _, _, _ => "bad-op"
+  | _ => "bad-op"
+
 def handle (line : String) : String :=
   match line.trimAscii.toString.splitOn " " with
   | "C05" :: rest => runC05 rest
@@ -464,6 +482,7 @@ def handle (line : String) : String :=
   | "NOMODEL" :: _ => ""
   | "BARGEO" :: rest => runBARGEO rest
   | "ITERW" :: rest => runITERW rest
+  | "ITERS" :: rest => runITERS rest
   | "TAB" :: _ => runTAB ((line.trimAscii.toString.drop 3).toString)
   | "FMT" :: rest => runFMT rest
   | "STYLE" :: _ => runSTYLE ((line.trimAscii.toString.drop 6).toString)
